@@ -252,11 +252,23 @@ def hit_rejects_other_ids(c, h, ins_call, field):
     from lib import Canon, pat_top_variants, outcome, src
     cn = Canon(c, h, 2)
     val = cn.r(strip(ins_call["args"][1])) if len(ins_call.get("args", [])) > 1 else None
+
+    def keytxt(e):
+        t = cn.r(strip(e))
+        while t.endswith(".clone()") or t.endswith(".to_string()") or t.endswith(".as_str()"):
+            t = t.rsplit(".", 1)[0]
+        return t
+    ins_key = keytxt(ins_call["args"][0]) if ins_call.get("args") else None
+    last_other = None
     for m, _ in walk(h["body"]):
         if m.get("k") != "match" or m.get("src") != "normal":
             continue
         sc = strip(m["scrut"])
         if not (sc.get("k") == "mcall" and sc["name"] == "get" and strip(sc["recv"]).get("k") == "field" and strip(sc["recv"])["name"] == field):
+            continue
+        if sc.get("args") and ins_key is not None and keytxt(sc["args"][0]) != ins_key:
+            # a lookup under a different key does not protect this insert
+            last_other = "the map is consulted under `%s` but written under `%s`: a name that only becomes known after the conversion (a title, a patch rename, an inline type of the same name) is committed over an entry held by another id, and two definitions of one name are rendered" % (keytxt(sc["args"][0])[:70], ins_key[:70])
             continue
         for a in m["arms"]:
             if outcome(a["body"]) not in ("ret-err", "ret"):
@@ -274,7 +286,7 @@ def hit_rejects_other_ids(c, h, ins_call, field):
                     if x.get("k") == "path" and x.get("res") == "local" and x["path"] in binds and cn.r(y) == val:
                         return None
             return "a registered name held by another id is rejected only under `%s`: otherwise the name is re-pointed to the new id and both entries stay in the space, so two definitions of one name are rendered" % src(a["guard"])[:120]
-    return "no arm rejects a hit of %s under a different id before the insert" % field
+    return last_other or "no arm rejects a hit of %s under a different id before the insert" % field
 
 
 def run(facts, rep, tier):
